@@ -291,3 +291,170 @@ pub fn enum_variants(file: &syn::File, name: &str) -> Option<(String, Vec<(Strin
     }
     None
 }
+
+/// arms `Path::Variant => ciborium::Value::Integer(<int>.into())` of the first match in the block
+pub fn match_arms_path_to_value_int(b: &syn::Block) -> Vec<(String, i128)> {
+    struct V(Vec<(String, i128)>, bool);
+    impl<'ast> Visit<'ast> for V {
+        fn visit_expr_match(&mut self, m: &'ast syn::ExprMatch) {
+            if self.1 {
+                return;
+            }
+            self.1 = true;
+            for arm in &m.arms {
+                let pat = quote::ToTokens::to_token_stream(&arm.pat).to_string().replace(' ', "");
+                let name = pat.rsplit("::").next().unwrap_or(&pat).to_string();
+                if let syn::Expr::Call(c) = &*arm.body {
+                    let f = quote::ToTokens::to_token_stream(&c.func).to_string().replace(' ', "");
+                    if f.ends_with("Value::Integer") && c.args.len() == 1 {
+                        if let syn::Expr::MethodCall(mc) = &c.args[0] {
+                            if mc.method == "into" {
+                                if let Some(n) = int_of(&mc.receiver) {
+                                    self.0.push((name, n));
+                                    continue;
+                                }
+                            }
+                        }
+                    }
+                }
+                // an arm of another shape: the table is not a literal table any more
+                self.0.clear();
+                return;
+            }
+        }
+    }
+    let mut v = V(vec![], false);
+    v.visit_block(b);
+    v.0
+}
+
+/// `CoseKey::signature_algorithm`: every arm is `CoseKey::<K> { crv: <C>::<X>, .. } => Some(Algorithm::<A>)`
+/// except a final `_ => None`.  Returns ((K, X, A) rows, has `_ => None`).
+pub fn sig_alg_arms(b: &syn::Block) -> Result<(Vec<(String, String, String)>, bool), String> {
+    let m = b
+        .stmts
+        .iter()
+        .find_map(|s| match s {
+            syn::Stmt::Expr(syn::Expr::Match(m), _) => Some(m),
+            _ => None,
+        })
+        .ok_or("signature_algorithm is not a single match expression")?;
+    let scrut = quote::ToTokens::to_token_stream(&m.expr).to_string();
+    if scrut != "self" {
+        return Err(format!("match scrutinee is `{scrut}`, expected `self`"));
+    }
+    let mut rows = vec![];
+    let mut default_none = false;
+    for arm in &m.arms {
+        if arm.guard.is_some() {
+            return Err("arm with a guard".into());
+        }
+        let body = quote::ToTokens::to_token_stream(&arm.body).to_string().replace(' ', "");
+        match &arm.pat {
+            syn::Pat::Wild(_) => {
+                if body != "None" {
+                    return Err(format!("wildcard arm returns `{body}`, expected None"));
+                }
+                default_none = true;
+            }
+            syn::Pat::Struct(ps) => {
+                let path: Vec<String> = ps.path.segments.iter().map(|s| s.ident.to_string()).collect();
+                if path.len() != 2 || path[0] != "CoseKey" || ps.fields.len() != 1 || ps.rest.is_none() {
+                    return Err(format!("arm pattern `{}` is not CoseKey::K {{ crv: C::X, .. }}", quote::ToTokens::to_token_stream(&arm.pat)));
+                }
+                let fp = &ps.fields[0];
+                let fname = quote::ToTokens::to_token_stream(&fp.member).to_string();
+                let crv = match &*fp.pat {
+                    syn::Pat::Path(pp) => pp.path.segments.last().map(|s| s.ident.to_string()),
+                    _ => None,
+                };
+                let crv = match (fname.as_str(), crv) {
+                    ("crv", Some(c)) => c,
+                    _ => return Err("arm pattern field is not `crv: C::X`".into()),
+                };
+                let alg = body.strip_prefix("Some(Algorithm::").and_then(|r| r.strip_suffix(')'));
+                match alg {
+                    Some(a) if a.chars().all(|c| c.is_alphanumeric() || c == '_') => rows.push((path[1].clone(), crv, a.to_string())),
+                    _ => return Err(format!("arm body `{body}` is not Some(Algorithm::A)")),
+                }
+            }
+            other => return Err(format!("arm pattern `{}` has an unexpected shape", quote::ToTokens::to_token_stream(other))),
+        }
+    }
+    Ok((rows, default_none))
+}
+
+/// `impl Ty { const NAME: &str = "lit"; }`
+pub fn impl_const_str(file: &syn::File, ty: &str, name: &str) -> Option<String> {
+    for it in &file.items {
+        if let syn::Item::Impl(im) = it {
+            if im.trait_.is_none() && type_mentions(&im.self_ty, ty) {
+                for ii in &im.items {
+                    if let syn::ImplItem::Const(c) = ii {
+                        if c.ident == name {
+                            return lit_str(&c.expr);
+                        }
+                    }
+                }
+            }
+        }
+    }
+    None
+}
+
+/// in a block: `Security(<int>, ..)` and `DeviceEngagement { version: "lit".to_string(), .. }`
+pub fn engagement_literals(b: &syn::Block) -> (Option<u64>, Option<String>) {
+    struct V(Option<u64>, Option<String>);
+    impl<'ast> Visit<'ast> for V {
+        fn visit_expr_call(&mut self, c: &'ast syn::ExprCall) {
+            let f = quote::ToTokens::to_token_stream(&c.func).to_string().replace(' ', "");
+            if f == "Security" && c.args.len() == 2 {
+                if let Some(n) = int_of(&c.args[0]) {
+                    self.0 = u64::try_from(n).ok();
+                }
+            }
+            syn::visit::visit_expr_call(self, c);
+        }
+        fn visit_expr_struct(&mut self, s: &'ast syn::ExprStruct) {
+            if s.path.segments.last().map(|x| x.ident == "DeviceEngagement").unwrap_or(false) {
+                for f in &s.fields {
+                    if quote::ToTokens::to_token_stream(&f.member).to_string() == "version" {
+                        if let syn::Expr::MethodCall(mc) = &f.expr {
+                            if mc.method == "to_string" || mc.method == "into" {
+                                self.1 = lit_str(&mc.receiver);
+                            }
+                        }
+                    }
+                }
+            }
+            syn::visit::visit_expr_struct(self, s);
+        }
+    }
+    let mut v = V(None, None);
+    v.visit_block(b);
+    (v.0, v.1)
+}
+
+/// in a block: `Struct { field: "lit".into() | "lit".to_string(), .. }`
+pub fn struct_field_str(b: &syn::Block, struct_name: &str, field: &str) -> Option<String> {
+    struct V<'a>(&'a str, &'a str, Option<String>);
+    impl<'ast, 'a> Visit<'ast> for V<'a> {
+        fn visit_expr_struct(&mut self, s: &'ast syn::ExprStruct) {
+            if s.path.segments.last().map(|x| x.ident == self.0).unwrap_or(false) {
+                for f in &s.fields {
+                    if quote::ToTokens::to_token_stream(&f.member).to_string() == self.1 {
+                        if let syn::Expr::MethodCall(mc) = &f.expr {
+                            if mc.method == "to_string" || mc.method == "into" {
+                                self.2 = lit_str(&mc.receiver);
+                            }
+                        }
+                    }
+                }
+            }
+            syn::visit::visit_expr_struct(self, s);
+        }
+    }
+    let mut v = V(struct_name, field, None);
+    v.visit_block(b);
+    v.2
+}
